@@ -20,7 +20,7 @@ RULE = ('seeded generator: photon cubes 1..6 wavelengths x (2..24)^2, QE as scal
         'hash) descriptors; non-trivial = frame with > 1 pixel.')
 ASSUMPTIONS = ['gain polynomial values within 1e-9 (relative) of an integer may floor to either side']
 PLAN = {'quick': {'gen': 8}, 'thorough': {'gen': 16, 'tests': 1, 'docs': 1}}
-REQUIRED_BUCKETS = ['qe:scalar', 'qe:vector', 'qe:spectrum', 'unit:nm', 'unit:um', 'unit:m', 'unit:angstrom', 'bayer:k=1',
+REQUIRED_BUCKETS = ['qe:scalar', 'qe:vector', 'qe:spectrum', 'qe:offset-table', 'unit:nm', 'unit:um', 'unit:m', 'unit:angstrom', 'bayer:k=1',
                     'bayer:k=2', 'bayer:k=3', 'bayer:k=4', 'bayer:os=1', 'bayer:os=2', 'bayer:os>=3', 'bayer:nonsquare',
                     'bayer:channels', 'bayer:spectrum-qe', 'bayer:unit!=nm', 'gain:scalar', 'gain:poly', 'gain:pixel', 'gain:pixel-poly', 'adc:negative',
                     'adc:saturated', 'adc:dtype', 'adc:warn']
@@ -241,6 +241,38 @@ def workload(ctx, lentil):
                 D.collect_charge(img[0], wave, qv, waveunit=unit)      # 2-D input form
         except Exception as e:
             ctx.check(False, 'charge:qe-forms', f'charge-driver|raises={type(e).__name__}', str(e), desc)
+    # ---- QE tables with as many points as there are slices, tabulated a little off the slice wavelengths (bin edges versus
+    # bin centres): the efficiency still has to be interpolated, in whatever unit table and call share or do not share
+    for i in range(max(12, n // 4)):
+        nw = int(rng.integers(2, 9))
+        step = float(rng.uniform(5, 40))
+        table_nm = 450 + step * np.arange(nw) + float(rng.uniform(0, 200))
+        off = float(rng.uniform(0.05, 0.5)) * step * (1 if i % 2 else -1)
+        wave_nm = table_nm + off                       # all but one slice inside the table; the outer one gets QE 0 (outside)
+        qtab = rng.uniform(0, 1, size=nw)
+        if i % 3 == 0:
+            qtab = np.linspace(0.05, 0.95, nw) ** 2        # steep, monotonic
+        unit = sm.WAVE_CANON[i % 4]
+        qunit = unit if i % 8 < 6 else sm.WAVE_CANON[int(rng.integers(0, 4))]
+        shape = (2 * int(rng.integers(1, 7)), 2 * int(rng.integers(1, 7)))       # whole Bayer cells
+        img = rng.uniform(0, 1e4, size=(nw,) + shape)
+        desc = {'charge': 'offset-table', 'nw': nw, 'unit': unit, 'qunit': qunit, 'offset_nm': off, 'step_nm': step}
+        ctx.case(desc, ['qe:offset-table', f'unit:{unit}'])
+        spec = R.Spectrum(table_nm * sm.wave_factor('nm', qunit), qtab, waveunit=qunit)
+        try:
+            out = D.collect_charge(img, wave_nm * sm.wave_factor('nm', unit), spec, waveunit=unit)      # probe decides too
+            qi = sm.interp_linear(wave_nm, table_nm, qtab, 0.0)
+            edge = np.abs(wave_nm - table_nm[0]) < 1e-9 * table_nm[0]
+            edge |= np.abs(wave_nm - table_nm[-1]) < 1e-9 * table_nm[0]
+            if not edge.any():
+                ctx.close('charge:qe-forms', out, np.tensordot(qi, img, axes=(0, 0)), 1e-9, 'charge|offset-table',
+                          'a QE table with as many points as slices, tabulated off the slice wavelengths, was not interpolated', desc,
+                          scale=float(np.max(np.abs(img.sum(axis=0)))) + 1e-300)
+            pat = 'RGGB'
+            outb = D.collect_charge_bayer(img, wave_nm * sm.wave_factor('nm', unit), spec, spec, spec, pat, waveunit=unit)   # probe
+        except Exception as e:
+            ctx.check(False, 'charge:qe-forms', f'offset-table|raises={type(e).__name__}', str(e), desc)
+
     # ---- collect_charge_bayer ------------------------------------------------------------------------------
     for i in range(n):
         k = int(rng.integers(1, 5))
